@@ -15,6 +15,7 @@ import (
 	"runtime"
 	"sort"
 	"strings"
+	"time"
 
 	"github.com/fullstorydev/grpchan/grpchantesting"
 	"github.com/fullstorydev/grpchan/httpgrpc"
@@ -370,6 +371,46 @@ func suiteC07(r *Run) {
 	}
 
 	hugeLimitMB := float64(limit)/(1<<20) + 48 // per-message limit plus slack for the runtime
+	// ---- client side, single-response kind (client streaming: one RecvMsg is the whole call, as in CloseAndRecv):
+	// every strict prefix of a complete reply, and a reply whose trailer frame is hostile or undecodable, is a failed call
+	for i := 0; i < r.Budget(6, 60); i++ {
+		reply := &Msg{Count: int32(1 + rng.Intn(1000)), Payload: rng.Bytes(rng.Intn(40))}
+		tr := &httpgrpc.HttpTrailer{Metadata: map[string]*httpgrpc.TrailerValues{"t": {Values: []string{"v"}}}}
+		full := append(frame(marshalDet(reply), false), frame(marshalDet(tr), true)...)
+		type variant struct {
+			name string
+			body []byte
+		}
+		var vs []variant
+		for cut := 0; cut < len(full); cut++ {
+			vs = append(vs, variant{sprintf("cut@%d/%d", cut, len(full)), full[:cut]})
+		}
+		msgOnly := frame(marshalDet(reply), false)
+		for _, pfx := range [][]byte{{0x80, 0, 0, 0}, {0xff, 0xff, 0xff, 0xff}, {0xf0, 0, 0, 0}} {
+			vs = append(vs, variant{"hostile-trailer-prefix-" + hex.EncodeToString(pfx), append(append([]byte{}, msgOnly...), pfx...)})
+		}
+		vs = append(vs, variant{"undecodable-trailer", append(append([]byte{}, msgOnly...), frame([]byte{0xff, 0xff, 0xff, 0x07}, true)...)})
+		for _, v := range vs {
+			for _, endErr := range []error{nil, errAbrupt} {
+				cdesc := map[string]interface{}{"side": "client", "kind": "single-response " + v.name, "ending": endName(endErr), "body_hex": trunc(hex.EncodeToString(v.body), 400), "body_len": len(v.body)}
+				r.Begin("http-client/framing/panic", "the stream decoder never panics", cdesc)
+				res, pan := driveClientSingle(v.body, endErr)
+				r.Eval(sprintf("client-single %s %s %x", v.name, endName(endErr), v.body), true)
+				r.Count("client-single")
+				r.TracesOnImpl++
+				if pan != "" {
+					r.Violate("http-client/framing/panic", "the stream decoder never panics", pan, cdesc, pan)
+				} else if res == "ok" {
+					r.Violate("http-client/framing/truncated-single-response-reported-success", "a stream that ends before its terminating trailer frame is reported as a failed call, never as a clean end of stream",
+						sprintf("client-streaming call, reply body %s (%d of %d bytes, %s ending): RecvMsg returned the message with a nil error", v.name, len(v.body), len(full), endName(endErr)), cdesc, res)
+				}
+			}
+		}
+		// the complete reply is a success (the check above is not vacuous)
+		if res, _ := driveClientSingle(full, nil); res != "ok" {
+			r.Violate("http-client/framing/complete-single-response-refused", "a complete reply is delivered", sprintf("complete %d-byte reply: %s", len(full), res), map[string]interface{}{"side": "client", "kind": "single-response complete"}, res)
+		}
+	}
 	for _, bd := range bodies {
 		for _, endErr := range []error{nil, errAbrupt} {
 			if endErr != nil && bd.kind == "random" && rng.Chance(50) {
@@ -504,4 +545,30 @@ func trunc(s string, n int) string {
 		return s[:n] + "…"
 	}
 	return s
+}
+
+// driveClientSingle feeds body to a client-streaming call (one response) and reports what the one RecvMsg returned.
+func driveClientSingle(body []byte, endErr error) (res string, pan string) {
+	u, _ := url.Parse("http://mem.test/")
+	rt := &replayTransport{code: 200, hdr: http.Header{"Content-Type": {httpgrpc.StreamRpcContentType_V1}}, body: body, endErr: endErr}
+	ch := &httpgrpc.Channel{Transport: rt, BaseURL: u}
+	func() {
+		defer recoverTo(&pan)
+		ctx, cancel := context.WithTimeout(context.Background(), 5*time.Second)
+		defer cancel()
+		cs, err := ch.NewStream(ctx, descCStream, mCStream)
+		if err != nil {
+			res = "newstream-error"
+			return
+		}
+		_ = cs.SendMsg(&Msg{})
+		_ = cs.CloseSend()
+		var m Msg
+		if err := cs.RecvMsg(&m); err != nil {
+			res = "error:" + resOf(err)
+			return
+		}
+		res = "ok"
+	}()
+	return
 }
